@@ -255,4 +255,39 @@ def prepareNongeneric (perNode perShard : List (Except Nat String)) : Except PEr
     | .ok id => .ok id
     | .error _ => if perShard.isEmpty then .error .noConnections else prepareOnAll perShard
 
+/-! ## session.rs:1945-1963 `Session::prepare_batch`
+
+`try_join_all` over `statements.iter_mut()`: every UNPREPARED statement is prepared ON ITS OWN by `prepare_nongeneric`
+(no deduplication: the same text twice = two preparations, each on every node) and replaced IN PLACE by the statement
+made from ITS OWN text and config (`*statement = …` through the `&mut` of that position: the completion order cannot
+move a result to another position); prepared statements stay. If any preparation fails the call fails with the error
+of one of the failing statements (the one `try_join_all` sees first: any). -/
+
+def sessionPrepareStmt (prep : String → Except PErr String) : BStmt → Except PErr BStmt
+  | .prepared p => .ok (.prepared p)
+  | .query q =>
+    match prep q.text with
+    | .error e => .error e
+    | .ok id => .ok (.prepared ⟨id, q.text, q.cfg, q.page, false⟩)
+
+/-- (the statements that could be prepared, in order; the errors of those that could not, in order) -/
+def sessionPrepareAll (prep : String → Except PErr String) : List BStmt → List BStmt × List PErr
+  | [] => ([], [])
+  | s :: rest =>
+    match sessionPrepareStmt prep s with
+    | .ok s' => (s' :: (sessionPrepareAll prep rest).1, (sessionPrepareAll prep rest).2)
+    | .error e => ((sessionPrepareAll prep rest).1, e :: (sessionPrepareAll prep rest).2)
+
+/-- `.error es`: the call fails with one of `es` (non-empty) -/
+def sessionPrepareBatch (prep : String → Except PErr String) (b : Batch) : Except (List PErr) Batch :=
+  match sessionPrepareAll prep b.stmts with
+  | (r, []) => .ok { b with stmts := r }
+  | (_, e :: es) => .error (e :: es)
+
+/-- the texts the cluster is asked about: every unprepared statement, with repetitions, in statement order -/
+def sessionPrepareAsked : List BStmt → List String
+  | [] => []
+  | .query q :: rest => q.text :: sessionPrepareAsked rest
+  | .prepared _ :: rest => sessionPrepareAsked rest
+
 end ScyllaVerif.PreparedSession
